@@ -297,6 +297,7 @@ package chain
 //@ extern (*consensus.ElementAccumulator).ValidateTransactionElements pure
 //@ extern (consensus.ApplyUpdate).SiacoinElementDiffs
 //@   assigns nothing
+//@   ensures forall d int :: { result[d] } 0 <= d && d < len(result) ==> result[d].Created || result[d].Spent
 //@ extern (consensus.ApplyUpdate).SiafundElementDiffs
 //@   assigns nothing
 //@ extern (types.StateElement).Share pure
